@@ -276,6 +276,23 @@ func H_C07_text() {
 		vAssert(dst.Remove(vIDs[0]) == nil, "reloaded-accepts-remove")
 		r2, _ := dst.NewSearch().WithQuery("tick").WithK(0).Execute()
 		vAssert(len(r2) == 0, "reloaded-remove-reflected")
+		// ... and after the physical purge: no trace of the removed document, same answers as the source
+		// taken through the same continuation
+		vAssert(dst.Flush() == nil, "reloaded-flush-ok")
+		vAssert(src.Add(42, "new cat") == nil && src.Remove(vIDs[0]) == nil && src.Flush() == nil, "source-continuation-ok")
+		for _, cq := range []string{"tick", "fox", "dog", "cat"} {
+			a, ea := src.NewSearch().WithQuery(cq).WithK(0).Execute()
+			b, eb := dst.NewSearch().WithQuery(cq).WithK(0).Execute()
+			vAssert(ea == nil && eb == nil && len(a) == len(b), "continuation-same-answers")
+			for i := range a {
+				if i < len(b) {
+					vAssert(a[i].Id == b[i].Id && vSameF32(a[i].Score, b[i].Score), "continuation-same-answers")
+				}
+			}
+			for _, x := range b {
+				vAssert(x.Id != vIDs[0], "purged-document-leaves-no-trace")
+			}
+		}
 	}
 	vCover("ran")
 }
@@ -411,5 +428,57 @@ func H_C07_hybrid() {
 		vAssert(e == nil && len(m) == 0, "reloaded-remove-reaches-metadata")
 	}
 	vAssert(dst.AddWithID(42, []float32{7, 7}, "new", map[string]interface{}{"c": "z"}) == nil, "reloaded-accepts-add")
+	vCover("ran")
+}
+
+func init() { vHarnesses["H_C07_hnsw_graph"] = H_C07_hnsw_graph }
+
+// HNSW with more than M neighbours on layer 0 (M=2, 9 vectors, up to 4 links each): the reloaded graph
+// answers every narrow-beam query (efSearch 1..2, k=1, 12 query points and every stored node id) like the
+// source does — an edge lost or reordered on the way shows as a different greedy walk
+func H_C07_hnsw_graph() {
+	metric := []DistanceKind{L2Squared, Cosine}[vChoose("metric", 2)]
+	src, err := NewHNSWIndex(2, metric, 2, 8, 8)
+	vAssert(err == nil, "constructor")
+	pts := [][]float32{{0, 1}, {1, 0.5}, {2, 1.5}, {3, 0.25}, {4, 1}, {5, 2}, {1.5, 3}, {3.5, 3.5}, {0.5, 4}}
+	for i, p := range pts {
+		vAssert(src.Add(*NewVectorNodeWithID(uint32(10+i), vCopy(p))) == nil, "add-ok")
+	}
+	if vChoose("remove", 2) == 1 {
+		vAssert(src.Remove(*NewVectorNodeWithID(13, nil)) == nil, "remove-ok")
+		vTag("one-removed")
+	}
+	dst, _ := NewHNSWIndex(2, metric, 2, 8, 8)
+	if !vRoundTrip(src, dst) {
+		return
+	}
+	many := 0
+	for _, n := range dst.nodes {
+		if len(n.Edges) > 0 && len(n.Edges[0]) > 2 {
+			many++
+		}
+	}
+	if many > 0 {
+		vCover("more-than-M-links-on-layer-0")
+	}
+	for ef := 1; ef <= 2; ef++ {
+		for qi := 0; qi < 12; qi++ {
+			q := []float32{float32(qi%4)*1.5 + 0.25, float32(qi/4)*1.75 + 0.5}
+			a, e1 := src.NewSearch().WithQuery(vCopy(q)).WithK(1).WithEfSearch(ef).Execute()
+			b, e2 := dst.NewSearch().WithQuery(vCopy(q)).WithK(1).WithEfSearch(ef).Execute()
+			vAssert((e1 == nil) == (e2 == nil), "reloaded-same-error")
+			if e1 == nil && e2 == nil {
+				vSameResults(a, b, "reloaded-same-answer-narrow-beam")
+			}
+		}
+		for i := range pts {
+			a, e1 := src.NewSearch().WithNode(uint32(10 + i)).WithK(2).WithEfSearch(ef).Execute()
+			b, e2 := dst.NewSearch().WithNode(uint32(10 + i)).WithK(2).WithEfSearch(ef).Execute()
+			vAssert((e1 == nil) == (e2 == nil), "reloaded-same-error-node-query")
+			if e1 == nil && e2 == nil {
+				vSameResults(a, b, "reloaded-same-answer-node-query")
+			}
+		}
+	}
 	vCover("ran")
 }
